@@ -1,6 +1,7 @@
 (* Props/C15.v — property C15: OpenSfM export then import preserves shots, poses, cameras, points,
    matches.  Only statements; every proof is a lemma of Proofs/POpensfm.v about the executable model
-   Model/MOpensfm.v (export_opensfm / import_opensfm after the repairs fixes/C15-*.patch).
+   Model/MOpensfm.v.  PART A is about the code as it is (one clause of the property fails there: a known
+   finding, stated positively as what still holds and refuted by a witness); PART B about the repaired model.
 
    All theorems quantify over
      - every dataset [d] with [in_range d = true]  (cameras SIMPLE_PINHOLE / SIMPLE_RADIAL / RADIAL with
@@ -11,7 +12,7 @@
    The rotation theorem alone needs the library contract, and only on the quaternions of [d]:
        rotvec_contract_on to_rv of_rv d :=
          forall (k, p) in d_traj d,  n2 (p_r p) <> 0 -> rot (of_rv (to_rv (p_r p))) =m= rot (p_r p). *)
-From Coq Require Import List Bool String ZArith QArith.
+From Coq Require Import List Bool String ZArith QArith Sorting.Permutation.
 From KV Require Import Eqb AL Str.
 From KV.Model Require Import MQV MOpensfm.
 From KV.Proofs Require Import PQV POpensfm.
@@ -20,7 +21,13 @@ Local Open Scope string_scope.
 Local Open Scope Q_scope.
 Local Open Scope list_scope.
 
-Section C15.
+(* =====================================================================================================
+   PART A — THE CODE AS IT IS in the tree under test ([roundtrip] = import_ . export, the functions the
+   correspondence run compares with the implementation).  Every clause of the property holds, except that
+   the importer orders the point ids as STRINGS (known finding, see docs/C15.md): the point sequence comes
+   back permuted by that fixed order — identical up to ten points, the same multiset for any number.
+   ===================================================================================================== *)
+Section C15_as_is.
   Variable to_rv : quat -> vec.
   Variable of_rv : vec -> quat.
   Variable d : dataset.
@@ -65,9 +72,32 @@ Section C15.
                nthq (c_params c') 3 == nthq (c_params c) 3 /\ nthq (c_params c') 4 == nthq (c_params c) 4.
   Proof. intros d' H id c L. back H. apply cameras_preserved; assumption. Qed.
 
-  (* --- 4. the same SEQUENCE of 3-D points with colours, for any number of points *)
-  Theorem C15_points_sequence : forall d', roundtrip to_rv of_rv d = Ok d' -> d_points d' = d_points d.
-  Proof. intros d' H. back H. apply points_preserved. Qed.
+  (* --- 4 (as is). the points come back in the STRING order of their decimal ids: the original sequence
+          permuted by [string_order_perm] (ids "0","1","10","11",...,"2",...) ... *)
+  Theorem C15_points_as_is_string_order : forall d', roundtrip to_rv of_rv d = Ok d' ->
+    d_points d' = option_map string_order_perm (d_points d).
+  Proof. intros d' H. back H. reflexivity. Qed.
+
+  (* ... hence the same multiset of (coordinates, colour) rows, for any number of points ... *)
+  Theorem C15_points_as_is_same_multiset : forall d', roundtrip to_rv of_rv d = Ok d' ->
+    match d_points d, d_points d' with
+    | Some rows, Some rows' => Permutation rows' rows
+    | None, None => True
+    | _, _ => False
+    end.
+  Proof.
+    intros d' H. back H. cbn. destruct (d_points d) as [rows|]; cbn; [|exact I].
+    apply string_order_perm_Permutation.
+  Qed.
+
+  (* ... and the very same sequence as long as there are at most ten points *)
+  Theorem C15_points_as_is_same_sequence_upto_ten : forall d', roundtrip to_rv of_rv d = Ok d' ->
+    match d_points d with Some rows => (List.length rows <= 10)%nat | None => True end ->
+    d_points d' = d_points d.
+  Proof.
+    intros d' H L. back H. cbn. destruct (d_points d) as [rows|]; cbn; [|reflexivity].
+    rewrite string_order_perm_upto_ten by exact L. reflexivity.
+  Qed.
 
   (* --- 5. keypoints and descriptors: for every name, the same array (or the same absence) *)
   Theorem C15_keypoints : forall d', roundtrip to_rv of_rv d = Ok d' ->
@@ -88,7 +118,7 @@ Section C15.
     destruct (lookup (a, b) (d_matches d)) as [rows|]; cbn; [|reflexivity].
     f_equal. rewrite map_map. cbn. rewrite map_id. reflexivity.
   Qed.
-End C15.
+End C15_as_is.
 
 Print Assumptions C15_roundtrip_succeeds.
 Print Assumptions C15_images_and_camera_binding.
@@ -96,10 +126,57 @@ Print Assumptions C15_poses.
 Print Assumptions C15_one_pose_per_image.
 Print Assumptions C15_camera_ids.
 Print Assumptions C15_camera_parameters.
-Print Assumptions C15_points_sequence.
+Print Assumptions C15_points_as_is_string_order.
+Print Assumptions C15_points_as_is_same_multiset.
+Print Assumptions C15_points_as_is_same_sequence_upto_ten.
 Print Assumptions C15_keypoints.
 Print Assumptions C15_descriptors.
 Print Assumptions C15_match_index_pairs.
+
+(* --- 4 (as is), the clause of the property that FAILS on the code as it is: an in-range dataset with eleven
+   points whose round trip succeeds and changes the sequence (it comes back 0,1,10,2,...,9).  This is the
+   known finding `points imported in string order of their ids (more than 10 points)`. *)
+Definition no_images (pts : option (list (list Q))) : dataset :=
+  {| d_cameras := []; d_images := []; d_traj := []; d_points := pts;
+     d_keypoints := []; d_descriptors := []; d_matches := [] |}.
+Definition eleven_points : list (list Q) := map (fun i => [inject_Z (Z.of_nat i); 0; 0; 0; 0; 0]) (seq 0 11).
+
+Theorem C15_points_sequence_refuted : forall to_rv of_rv,
+  exists d, in_range d = true /\ option_map (@List.length _) (d_points d) = Some 11%nat /\
+  exists d', roundtrip to_rv of_rv d = Ok d' /\ d_points d' <> d_points d /\
+             option_map (map (fun r => nthq r 0)) (d_points d') = Some [0; 1; 10; 2; 3; 4; 5; 6; 7; 8; 9].
+Proof.
+  intros to_rv of_rv. exists (no_images (Some eleven_points)).
+  split; [vm_compute; reflexivity|]. split; [vm_compute; reflexivity|].
+  eexists. split; [vm_compute; reflexivity|].
+  split; [|vm_compute; reflexivity]. vm_compute. intro H. discriminate H.
+Qed.
+Print Assumptions C15_points_sequence_refuted.
+
+(* =====================================================================================================
+   PART B — THE REPAIRED MODEL ([roundtrip_repaired]: `sorted(opensfm_points, key=int)`, the patch kept in
+   fixes/not-applied/ because it needs the stored sample fixtures regenerated).  NOT the code under test.
+   With it the property holds at full strength: the point sequence is preserved for any length, and nothing
+   else changes with respect to Part A.
+   ===================================================================================================== *)
+Definition set_points (pts : option (list (list Q))) (x : dataset) : dataset :=
+  {| d_cameras := d_cameras x; d_images := d_images x; d_traj := d_traj x; d_points := pts;
+     d_keypoints := d_keypoints x; d_descriptors := d_descriptors x; d_matches := d_matches x |}.
+
+Theorem C15_repaired_points_sequence : forall to_rv of_rv d, in_range d = true ->
+  exists d', roundtrip_repaired to_rv of_rv d = Ok d' /\ d_points d' = d_points d.
+Proof. intros to_rv of_rv d R. eexists. split; [apply roundtrip_repaired_total; exact R|reflexivity]. Qed.
+Print Assumptions C15_repaired_points_sequence.
+
+(* every other clause of Part A transfers verbatim: the two results differ in the point cloud only *)
+Theorem C15_repaired_differs_in_points_only : forall to_rv of_rv d, in_range d = true ->
+  forall d0, roundtrip to_rv of_rv d = Ok d0 ->
+  roundtrip_repaired to_rv of_rv d = Ok (set_points (d_points d) d0).
+Proof.
+  intros to_rv of_rv d R d0 H. rewrite (roundtrip_total to_rv of_rv d R) in H. injection H as <-.
+  rewrite (roundtrip_repaired_total to_rv of_rv d R). reflexivity.
+Qed.
+Print Assumptions C15_repaired_differs_in_points_only.
 
 (* --- specific lemmas named by the design *)
 (* focal normalisation: f / max(w,h) * max(int(w), int(h)) = f exactly, also for portrait images *)
@@ -120,6 +197,11 @@ Theorem C15_string_id_order_breaks_beyond_ten : forall (V : Type) (vs : list V),
   (10 < List.length vs)%nat -> ksort (skeyed 0 vs) <> skeyed 0 vs.
 Proof. intros V. exact sort_string_breaks. Qed.
 Print Assumptions C15_string_id_order_breaks_beyond_ten.
+
+(* on the ids themselves the as-is order moves something for EVERY n above ten *)
+Theorem C15_string_order_moves_ids_beyond_ten : forall n, (10 < n)%nat -> string_order_perm (seq 0 n) <> seq 0 n.
+Proof. exact string_order_ids_beyond_ten. Qed.
+Print Assumptions C15_string_order_moves_ids_beyond_ten.
 
 (* --- non-vacuity: a concrete in-range dataset (two cameras, one portrait; three images named in
    non-lexical order in nested folders; a half turn and a near half turn; twelve points; features on two
@@ -151,36 +233,22 @@ Example C15_example :
   rotvec_contract_on cayley_to cayley_of ex_d /\
   exists d', roundtrip cayley_to cayley_of ex_d = Ok d' /\
              map (fun i => (i_name i, i_cam i)) (d_images d') = [("z/b.jpg", "camB"); ("a.jpg", "camA"); ("m/n/c.jpg", "camA")] /\
-             d_points d' = Some ex_points /\
+             d_points d' = Some (string_order_perm ex_points) /\ d_points d' <> Some ex_points /\
              map fst (d_keypoints d') = ["z/b.jpg"; "a.jpg"] /\ map fst (d_descriptors d') = ["a.jpg"] /\
              map fst (d_matches d') = [("z/b.jpg", "a.jpg"); ("a.jpg", "m/n/c.jpg")].
 Proof.
   split; [vm_compute; reflexivity|]. split.
   - intros k p I _. cbn in I.
     destruct I as [E|[E|[E|[]]]]; inversion E; subst; vm_compute; repeat split; reflexivity.
-  - eexists. split; [vm_compute; reflexivity|]. vm_compute. repeat split; reflexivity.
+  - eexists. split; [vm_compute; reflexivity|]. vm_compute. repeat split; try reflexivity.
+    intro H; discriminate H.
 Qed.
 
-(* --- the behaviour of the tree before the repairs is refuted (witnesses by computation) *)
-Definition no_images (pts : option (list (list Q))) : dataset :=
-  {| d_cameras := []; d_images := []; d_traj := []; d_points := pts;
-     d_keypoints := []; d_descriptors := []; d_matches := [] |}.
-Definition eleven_points : list (list Q) := map (fun i => [inject_Z (Z.of_nat i); 0; 0; 0; 0; 0]) (seq 0 11).
+(* --- the behaviour of the tree before the four committed repairs is refuted (witnesses by computation) *)
 Definition one_image (kp : list (string * arr)) (ms : list ((string * string) * list mrow)) : dataset :=
   {| d_cameras := [("cam", mkCam SimplePinhole [640; 480; 500; 320; 240])];
      d_images := [mkImg 0 "cam" "a.jpg"]; d_traj := [((0%Z, "cam"), mkPose (mkQ 1 0 0 0) (mkV 0 0 0))];
      d_points := None; d_keypoints := kp; d_descriptors := []; d_matches := ms |}.
-
-(* (1) ids ordered as strings: eleven points come back in the order 0,1,10,2,... *)
-Lemma C15_points_order_legacy_refuted : forall to_rv of_rv,
-  in_range (no_images (Some eleven_points)) = true /\
-  exists d', roundtrip_legacy to_rv of_rv (no_images (Some eleven_points)) = Ok d' /\
-             d_points d' <> d_points (no_images (Some eleven_points)) /\
-             option_map (map (fun r => nthq r 0)) (d_points d') = Some [0; 1; 10; 2; 3; 4; 5; 6; 7; 8; 9].
-Proof.
-  intros to_rv of_rv. split; [vm_compute; reflexivity|]. eexists. split; [vm_compute; reflexivity|].
-  split; [|vm_compute; reflexivity]. vm_compute. intro H. discriminate H.
-Qed.
 
 (* (2) the features files were written under a name the importer never looks at: keypoints vanish *)
 Lemma C15_features_legacy_refuted : forall to_rv,
